@@ -122,3 +122,59 @@ Lemma run_stateless_w : forall (inc : bool) (s t : st),
 Proof.
   intros inc s t H1 H2 H3 H4. unfold init. rewrite H2, H3, H4. destruct inc; [rewrite (H1 eq_refl)|]; reflexivity.
 Qed.
+
+(* incremental discovery on the wired-OR line, in the form "kept + new" and for departures *)
+Lemma incremental_wired_w : forall (S1 : list N) (s0 : st) (M0 : list N),
+  NoDup S1 -> (forall x, In x S1 -> x < 281474976710655) -> N.of_nat (length S1) < 4294967296 ->
+  exists n e M, e_run S1 coll_or n (init true s0) M0 = (e, M) /\
+    pending e = PIdle /\ completions e = completions s0 + 1 /\ result e = Some (true, uids e) /\
+    (forall x, In x (uids e) <-> (In x (uids s0) /\ In x S1) \/ (In x S1 /\ ~ In x (uids s0))).
+Proof.
+  intros S1 s0 M0 H1 H2 H3.
+  destruct (wired_or_w S1 true s0 M0 H1 H2 H3) as [n [e [M [E [P1 [P2 [P3 P4]]]]]]].
+  exists n, e, M. repeat split; try assumption.
+  - intros Hx. apply P4 in Hx. destruct (in_dec N.eq_dec x (uids s0)); [left|right]; auto.
+  - intros [[_ Hx]|[Hx _]]; apply P4; exact Hx.
+Qed.
+
+(* the responders [gone] (any of the previously known ones: the highest, the lowest, all, none) have
+   left and nothing new arrived: the result is exactly the known ones that stayed *)
+Lemma incremental_leave_w : forall (s0 : st) (gone M0 : list N),
+  NoDup (uids s0) -> (forall x, In x (uids s0) -> x < 281474976710655) ->
+  N.of_nat (length (uids s0)) < 4294967296 ->
+  let S1 := filter (fun x => negb (set_mem x gone)) (uids s0) in
+  exists n e M, e_run S1 coll_or n (init true s0) M0 = (e, M) /\
+    pending e = PIdle /\ completions e = completions s0 + 1 /\ result e = Some (true, uids e) /\
+    (forall x, In x (uids e) <-> In x (uids s0) /\ ~ In x gone).
+Proof.
+  intros s0 gone M0 H1 H2 H3 S1.
+  assert (HS1 : forall x, In x S1 <-> In x (uids s0) /\ ~ In x gone).
+  { intros x. unfold S1. rewrite filter_In, negb_true_iff. split; intros [A B]; split; try assumption.
+    - intros Hi. apply set_mem_In in Hi. congruence.
+    - destruct (set_mem x gone) eqn:E; [apply set_mem_In in E; contradiction | reflexivity]. }
+  destruct (wired_or_w S1 true s0 M0) as [n [e [M [E [P1 [P2 [P3 P4]]]]]]].
+  - apply NoDup_filter. exact H1.
+  - intros x Hx. apply H2. apply HS1. exact Hx.
+  - pose proof (Bound2.filter_length_le (fun x => negb (set_mem x gone)) (uids s0)). unfold S1. lia.
+  - exists n, e, M. split; [exact E|]. split; [exact P1|]. split; [exact P2|]. split; [exact P3|].
+    intros x. rewrite P4. apply HS1.
+Qed.
+
+Definition known4 : st := mkSt [] [0; 5; 6; 281474976710654] [] [] [] 0 0 0 false false PIdle 0 None.
+Definition inc_result (S1 : list N) (s0 : st) : option (bool * list N) * N :=
+  let '(e, _) := e_run S1 coll_or 400 (init true s0) [] in (result e, completions e).
+
+Lemma incremental_boundary_examples :
+  (* the highest known UID left *)
+  inc_result [0; 5; 6] known4 = (Some (true, [0; 5; 6]), 1) /\
+  (* the lowest known UID, 0000:00000000, left *)
+  inc_result [5; 6; 281474976710654] known4 = (Some (true, [5; 6; 281474976710654]), 1) /\
+  (* all known UIDs left *)
+  inc_result [] known4 = (Some (true, []), 1) /\
+  (* all left and others arrived, among them a pair whose collision is the phantom 5 *)
+  inc_result [1; 4; 281474976710653] known4 = (Some (true, [1; 4; 281474976710653]), 1) /\
+  (* none known before *)
+  inc_result [0; 1; 4; 281474976710654] idle0 = (Some (true, [0; 1; 4; 281474976710654]), 1) /\
+  (* nothing changed *)
+  inc_result [0; 5; 6; 281474976710654] known4 = (Some (true, [0; 5; 6; 281474976710654]), 1).
+Proof. vm_compute. repeat split. Qed.
